@@ -24,7 +24,7 @@ def fnum(x):
 def run(ctx):
     from ..shared import shared_container_rule as _shared_container_rule
 
-    _shared_container_rule(ctx, "R7.8", scope=lambda f, _s=("EasyFEA.FEM._gauss", "EasyFEA.FEM._group_elem"): f.module.name.startswith(_s), min_instances=50)
+    ctx.attempt(_shared_container_rule, ctx, "R7.8", scope=lambda f, _s=("EasyFEA.FEM._gauss", "EasyFEA.FEM._group_elem"): f.module.name.startswith(_s), min_instances=50)
     ctx.level = "proof"
     ctx.explanation = (
         "Quadrature tables are read from the source as exact numbers (rationals, quadratic surds; 15-digit decimal literals "
@@ -226,7 +226,7 @@ def run(ctx):
                             f"{what} of straight-sided {e}: integrand {label} is not integrated exactly by the {res[2]}-point {res[1]} rule selected for MatrixType.{mt} (error {fnum(err):.3e} on the coefficient of {pm})")
 
     # ---- R7.5 "rich enough" clause of the statement: counting bound shared with C02 (R2.2)
-    _c02.rank_rules(ctx, lib, gl, only_stiffness=True)
+    ctx.attempt(_c02.rank_rules, ctx, lib, gl, only_stiffness=True)
     weights_enter_rule(ctx)
     # "lengths, areas, volumes ... are exact": no tolerance-gated shortcut between the tables and the measures
     from ..shared import approx_guard_rule, setter_discipline_rule
